@@ -229,6 +229,9 @@ impl WriteSource for pr::ExprKind {
                     r += opt.consume(" ")?;
                 }
 
+                // the body is a function call, not a bare function
+                opt.context_strength = STRENGTH_CALL;
+
                 // try a single line
                 if let Some(body) = c.body.write(opt.clone()) {
                     r += &body;
@@ -274,6 +277,10 @@ fn break_line_within_parenthesis<T: WriteSource>(expr: &T, mut opt: WriteOpt) ->
 /// Context strength of a place that takes an operand but not a bare function call
 /// (stronger than [pr::ExprKind::FuncCall], weaker than any operator).
 const STRENGTH_OPERAND: u8 = 11;
+
+/// Context strength of a place that takes a function call but not a bare function
+/// (stronger than [pr::ExprKind::Func], weaker than [pr::ExprKind::FuncCall]).
+const STRENGTH_CALL: u8 = 8;
 
 fn binding_strength(expr: &pr::ExprKind) -> u8 {
     match expr {
@@ -536,7 +543,10 @@ fn display_interpolation(
 }
 
 impl WriteSource for pr::SwitchCase {
-    fn write(&self, opt: WriteOpt) -> Option<String> {
+    fn write(&self, mut opt: WriteOpt) -> Option<String> {
+        // both sides are function calls, not bare functions
+        opt.context_strength = opt.context_strength.max(STRENGTH_CALL);
+
         let mut r = String::new();
         r += &self.condition.write(opt.clone())?;
         r += " => ";
